@@ -324,7 +324,7 @@ prop('C13',
 prop('C17',
      [layout.r05_3, layout.r02_4, layout.r13_1, layout.r07_1,
       wrappers.r02_2, forward.r02_8, reduced.r08_4, reduced.r08_6, caches.r08_5, layout.r07_3, popmodels.r17_4, switch.r08_7, CUR_HIER,
-      CUR_LL, atomic.r11_9, atomic.r11_10, contracts.r17_5],
+      CUR_LL, atomic.r11_9, atomic.r11_10, contracts.r17_5, problems.r14_7],
      undecided=['uniqueness of run-time names (string contents)',
                 'bounded enumeration of deeper compositions'],
      assumptions=COMMON_ASSUME + ['numpy reshape/flatten are C-ordered'],
@@ -341,7 +341,7 @@ prop('C17',
                  'count across set_n_ids.')
 
 prop('C14',
-     [problems.r14_1, problems.r14_2, problems.r14_3, problems.r14_4, problems.r14_6,
+     [problems.r14_1, problems.r14_2, problems.r14_3, problems.r14_4, problems.r14_6, problems.r14_7,
       copies.r19_3, copies.r11_3, mech.r11_1, layout.r02_9],
      undecided=['pandas dtype coercion', 'effect of unrelated rows beyond '
                 'the enumerated filters', 'numerical equality with the '
